@@ -6,9 +6,9 @@
 //!   P c04chk        : the Spec oracle over the observed trace (connected only after the cookie proof, reply digest,
 //!                     flag intersection, layouts, bad input never connects, no panic)
 //! The clock-derived challenge (`digest::generate_challenge`) is never predicted: it is read back from the bytes
-//! `prepare_challenge_reply` returns and given to the model as the input of that `handle_challenge` op. When a
-//! challenge would be overwritten/cleared before it was read although an ack was judged against it, the harness
-//! inserts a real `prepare_challenge_reply` call (which is then part of the recorded sequence).
+//! `prepare_challenge_reply` returns and given to the model as the input of that `handle_challenge` op. Since the
+//! state machine judges an ack only after the reply was emitted, a challenge that was never read back is one nothing
+//! observable depended on (the model gets 0 for it); an ack letter played before the reply carries a placeholder.
 use crate::canon::{hex, hexarg};
 use crate::Ctx;
 use edp_client::digest;
@@ -82,15 +82,11 @@ struct Run {
     negs: Vec<String>,
     /// index of the token of the last successful handle_challenge whose challenge has not been read yet
     pending: Option<usize>,
-    /// an ack was judged against the unread challenge
-    ack_since: bool,
     /// what the harness knows (only to build interesting arguments)
     our: Option<u32>,
     their: Option<u32>,
     prev_our: Option<u32>,
     panics: u64,
-    /// real prepare_challenge_reply calls inserted only to read the clock-derived challenge back
-    probes: u64,
 }
 
 impl Run {
@@ -111,12 +107,10 @@ impl Run {
             states: vec![],
             negs: vec![],
             pending: None,
-            ack_since: false,
             our: None,
             their: None,
             prev_our: None,
             panics: 0,
-            probes: 0,
         }
     }
 
@@ -164,27 +158,17 @@ impl Run {
         self.ctoks[i] = self.ctoks[i].replace("?", v);
     }
 
-    /// read the pending challenge back before it is lost, if anything observable depended on it
+    /// a challenge that was never read back: nothing observable depended on it (an ack is only judged after the reply
+    /// was emitted, and the reply shows the challenge), so any value will do for the model
     fn settle(&mut self) {
         if let Some(i) = self.pending {
-            if self.ack_since {
-                self.probes += 1;
-                self.exec(&Op::R);
-            }
-            if self.pending.is_some() {
-                // nothing observable depended on it (or the reply failed, which the tie will show): any value will do
-                self.fill(i, "0");
-                self.pending = None;
-            }
+            self.fill(i, "0");
+            self.pending = None;
         }
     }
 
-    /// make the current challenge of ours known (inserting a real reply call if needed)
+    /// the current challenge of ours, if the reply has shown it
     fn learn_our(&mut self) -> Option<u32> {
-        if self.pending.is_some() {
-            self.probes += 1;
-            self.exec(&Op::R);
-        }
         self.our
     }
 
@@ -216,11 +200,6 @@ impl Run {
                 self.record("C".into(), o, sym);
             }
             Op::H(b) => {
-                // this call may overwrite a challenge that was not read yet: read it first if an ack depended on it
-                if self.pending.is_some() && self.ack_since {
-                    self.probes += 1;
-                    self.exec(&Op::R);
-                }
                 let r = catch_unwind(AssertUnwindSafe(|| self.m.handle_challenge(b)));
                 let o = self.unit(r);
                 let ok = o.0 == "ok";
@@ -231,7 +210,6 @@ impl Run {
                         self.fill(i, "0");
                     }
                     self.pending = Some(self.toks.len() - 1);
-                    self.ack_since = false;
                     if self.our.is_some() {
                         self.prev_our = self.our;
                     }
@@ -256,9 +234,6 @@ impl Run {
                 self.record("R".into(), o, sym);
             }
             Op::A(b) => {
-                if self.pending.is_some() {
-                    self.ack_since = true;
-                }
                 let r = catch_unwind(AssertUnwindSafe(|| self.m.handle_challenge_ack(b)));
                 let o = self.unit(r);
                 self.record(format!("A:{}", hexarg(b)), o, sym);
@@ -324,7 +299,6 @@ impl Run {
             ctx.prop(tag, format!("c04chk {} {}", self.cfg.text(), chk.join(" ")).trim_end(), "ok");
         }
         ctx.add("ops_run", n as u64);
-        ctx.add("challenge_readback_calls_inserted", self.probes);
         if self.panics > 0 {
             ctx.fail(tag, &format!("panic in {} call(s): {} {}", self.panics, self.cfg.text(), self.toks.join(" ")));
         }
@@ -460,13 +434,41 @@ fn corpus(ctx: &mut Ctx) {
         ("reuse", vec![B, N, SOk, C, HValid, R, AValid, D, B, N, SOk, C, HValid, R, AValid, B]),
         // refusal
         ("refused", vec![B, N, SNok, C, HTrunc, R, AValid]),
-        // leaving connected without disconnect
-        ("leave-connected", vec![HValid, R, AValid, N, AValid, HValid, AValid, R, AValid, HTrunc, AValid]),
+        // calls on a connected machine: all refused, the connection stays
+        ("calls-while-connected", vec![B, N, SOk, C, HValid, R, AValid, N, AValid, HValid, AValid, R, AValid, HTrunc, AValid, B, SNok, C]),
+        // former finding kf-c04-connected-out-of-order: the cookie proof without begin_connect / name / status
+        ("former-kf-out-of-order", vec![HValid, R, HTrunc, AValid]),
+        ("former-kf-out-of-order-minimal", vec![HValid, AValid]),
+        // former finding kf-c04-connected-after-refusal: the rest of a correct handshake after a refusal status
+        ("former-kf-after-refusal", vec![B, N, SNok, C, HValid, R, AValid]),
+        ("after-refusal-retry-status", vec![B, N, SNok, SOk, C, HValid, R, AValid]),
+        // failure is final for every kind of bad peer input, and disconnect leads on
+        ("after-bad-challenge", vec![B, N, SOk, C, HTrunc, HValid, R, AValid, D, B, N, SOk, C, HValid, R, AValid]),
+        ("after-bad-digest", vec![B, N, SOk, C, HValid, R, AWrong, AValid, R, AValid]),
+        ("after-truncated-ack", vec![B, N, SOk, C, HValid, R, ATrunc, AValid]),
+        // every step made twice: the repeat is refused and harmless
+        ("every-step-twice", vec![B, B, N, N, SOk, SOk, C, C, HValid, HValid, R, R, AValid, AValid]),
+        // one step skipped each
+        ("skip-begin", vec![N, SOk, C, HValid, R, AValid]),
+        ("skip-name", vec![B, SOk, C, HValid, R, AValid]),
+        ("skip-status", vec![B, N, C, HValid, R, AValid]),
+        ("skip-challenge", vec![B, N, SOk, C, R, AValid]),
+        ("skip-reply", vec![B, N, SOk, C, HValid, AValid]),
     ];
     for (tag, seq) in seqs {
         let mut run = Run::new(&cfg);
         for s in &seq {
             exec_sym(&mut run, *s);
+        }
+        run.finish();
+        // the former witnesses and the skipped-step sequences must not end Connected
+        let must_not_connect = tag.starts_with("former-kf") || tag.starts_with("skip-") || tag.starts_with("after-refusal")
+            || tag == "after-bad-digest" || tag == "after-truncated-ack";
+        if must_not_connect && run.states.iter().any(|s| s == "connected") {
+            ctx.fail(&format!("corpus-{}", tag), &format!("Connected outside the protocol order or after a failure: {} {} => {}", cfg.text(), run.toks.join(" "), run.states.join(",")));
+        }
+        if (tag == "complete" || tag == "every-step-twice") && run.states.last().map(|s| s.as_str()) != Some("connected") {
+            ctx.fail(&format!("corpus-{}", tag), &format!("a correct handshake did not end Connected: {} {} => {}", cfg.text(), run.toks.join(" "), run.states.join(",")));
         }
         run.emit(ctx, &format!("corpus-{}", tag), false, true);
         ctx.count("corpus_sequences");
@@ -487,60 +489,47 @@ fn corpus(ctx: &mut Ctx) {
     ctx.count("corpus_sequences");
 }
 
-/* ---------- findings: the state machine reaches Connected outside the protocol's step order ---------- */
-
-fn findings(ctx: &mut Ctx) {
-    let cfg = small_cfg();
-    use Sym::*;
-    // (1) never began, never sent a name, never saw a status, never sent the reply
-    let mut run = Run::new(&cfg);
-    for s in [HValid, R, HTrunc, AValid] {
-        exec_sym(&mut run, s);
-    }
-    run.finish();
-    let sent_name = run.toks.iter().any(|t| t == "N");
-    if run.m.state().as_str() == "connected" && !sent_name {
-        ctx.fail(
-            "kf-c04-connected-out-of-order",
-            &format!("Connected without begin_connect/prepare_send_name/handle_status: {} {} => {}", cfg.text(), run.toks.join(" "), run.states.join(",")),
-        );
-    }
-    run.emit(ctx, "finding-out-of-order", false, true);
-    // (2) the peer refused (status nok => Err(ConnectionRefused)) but the same machine still goes on to Connected
-    let mut run = Run::new(&cfg);
-    for s in [B, N, SNok, C, HValid, R, AValid] {
-        exec_sym(&mut run, s);
-    }
-    run.finish();
-    if run.outs[2].0 == "e-refused" && run.m.state().as_str() == "connected" {
-        ctx.fail(
-            "kf-c04-connected-after-refusal",
-            &format!("Connected after the peer's refusal status was reported: {} {} => {}", cfg.text(), run.toks.join(" "), run.states.join(",")),
-        );
-    }
-    run.emit(ctx, "finding-after-refusal", false, true);
-}
-
 /* ---------- exhaustive: every sequence over the 14-letter alphabet up to a length ---------- */
 
 fn exhaustive(ctx: &mut Ctx) {
     let cfg = small_cfg();
-    let max_len = ctx.n(4, 5);
-    let spec_len = ctx.n(3, 4);
     let k = ALPHABET.len();
-    for len in 1..=max_len {
-        let total = k.pow(len as u32);
-        for idx in 0..total {
-            let mut run = Run::new(&cfg);
-            let mut x = idx;
-            for _ in 0..len {
-                exec_sym(&mut run, ALPHABET[x % k]);
-                x /= k;
+    use Sym::*;
+    // from a fresh machine, and from every state of the protocol order (reached by the calls that lead there), plus the
+    // two dead ends: every continuation over the 14 letters up to a length
+    let prefixes: Vec<(&str, Vec<Sym>, usize, usize, usize, usize)> = vec![
+        // (name, prefix, max_len quick, max_len thorough, oracle up to quick, oracle up to thorough)
+        ("fresh", vec![], 4, 5, 3, 4),
+        ("connecting", vec![B], 3, 4, 2, 3),
+        ("awaiting_status", vec![B, N], 3, 4, 2, 3),
+        ("awaiting_challenge", vec![B, N, SOk], 3, 4, 2, 3),
+        ("sending_reply", vec![B, N, SOk, HValid], 3, 4, 2, 3),
+        ("awaiting_ack", vec![B, N, SOk, HValid, R], 3, 4, 2, 3),
+        ("connected", vec![B, N, SOk, HValid, R, AValid], 3, 4, 2, 3),
+        ("failed-refused", vec![B, N, SNok], 3, 4, 2, 3),
+        ("failed-bad-digest", vec![B, N, SOk, HValid, R, AWrong], 3, 4, 2, 3),
+    ];
+    for (name, prefix, lq, lt, sq, st) in prefixes {
+        let max_len = ctx.n(lq, lt);
+        let spec_len = ctx.n(sq, st);
+        for len in 1..=max_len {
+            let total = k.pow(len as u32);
+            for idx in 0..total {
+                let mut run = Run::new(&cfg);
+                for s in &prefix {
+                    exec_sym(&mut run, *s);
+                }
+                let mut x = idx;
+                for _ in 0..len {
+                    exec_sym(&mut run, ALPHABET[x % k]);
+                    x /= k;
+                }
+                run.emit(ctx, "exh", true, len <= spec_len);
+                ctx.count("exhaustive_sequences");
+                ctx.count(&format!("exhaustive_from_{}", name));
             }
-            run.emit(ctx, "exh", true, len <= spec_len);
-            ctx.count("exhaustive_sequences");
+            ctx.add("exhaustive", 1);
         }
-        ctx.add("exhaustive", 1);
     }
 }
 
@@ -720,20 +709,53 @@ fn random_walk(ctx: &mut Ctx) {
     ctx.count(if cfg.name.len() > 255 { "cfg_name_over_255" } else { "cfg_name_le_255" });
     ctx.count(if cfg.cookie.is_empty() { "cfg_cookie_empty" } else if cfg.cookie.is_ascii() { "cfg_cookie_ascii" } else { "cfg_cookie_non_ascii" });
     let mut run = Run::new(&cfg);
-    let len = 1 + ctx.rng.below(12) as usize;
-    let script = [Sym::B, Sym::N, Sym::SOk, Sym::C, Sym::HValid, Sym::R, Sym::AValid];
-    let mut pos = 0usize;
-    let disciplined = ctx.rng.chance(1, 2);
+    let len = 1 + ctx.rng.below(16) as usize;
+    // state-aware: mostly the call the protocol expects in the state the REAL machine shows, so that walks get deep
+    // (connected, failure after the reply, reuse after disconnect); deviations at every depth
+    let disciplined = ctx.rng.below(3);
     while run.toks.len() < len {
-        let follow = if disciplined { ctx.rng.chance(4, 5) } else { ctx.rng.chance(1, 4) };
+        let follow = match disciplined {
+            0 => ctx.rng.chance(9, 10),
+            1 => ctx.rng.chance(3, 4),
+            _ => ctx.rng.chance(1, 3),
+        };
         let sym = if follow {
-            let s = script[pos % script.len()];
-            pos += 1;
-            s
+            match run.m.state().as_str() {
+                "disconnected" => Sym::B,
+                "connecting" => Sym::N,
+                "awaiting_status" => Sym::SOk,
+                "awaiting_challenge" => if ctx.rng.chance(1, 3) { Sym::C } else { Sym::HValid },
+                "sending_challenge_reply" => Sym::R,
+                "awaiting_challenge_ack" => Sym::AValid,
+                "connected" => if ctx.rng.chance(1, 2) { Sym::D } else { *ctx.rng.pick(&ALPHABET) },
+                _ => if ctx.rng.chance(1, 2) { Sym::D } else { *ctx.rng.pick(&ALPHABET) },
+            }
         } else {
             *ctx.rng.pick(&ALPHABET)
         };
         match sym {
+            Sym::SOk if follow => {
+                let b = status_msg(if ctx.rng.chance(1, 6) { b"ok_simultaneous" } else { b"ok" });
+                run.exec(&Op::S(b));
+            }
+            Sym::HValid if follow => {
+                // well-formed with varied fields (or, rarely, whatever the generator gives)
+                let b = if ctx.rng.chance(1, 8) { gen_challenge_bytes(ctx) } else {
+                    let name: &[u8] = *ctx.rng.pick(&[b"peer@host" as &[u8], b"", "é中@😀".as_bytes()]);
+                    challenge_msg(gen_flags(ctx), gen_u32(ctx), gen_u32(ctx), name)
+                };
+                run.exec(&Op::H(b));
+            }
+            Sym::AValid if follow => {
+                let c = run.learn_our().unwrap_or(gen_u32(ctx));
+                let m = if ctx.rng.chance(1, 8) { damage(ctx, ack_msg(c, &cfg.cookie)) } else if ctx.rng.chance(1, 8) {
+                    // trailing bytes after the digest are ignored
+                    let mut m = ack_msg(c, &cfg.cookie);
+                    m.extend(ctx.rng.bytes(3));
+                    m
+                } else { ack_msg(c, &cfg.cookie) };
+                run.exec(&Op::A(m));
+            }
             Sym::SOk | Sym::SNok => {
                 let b = if ctx.rng.chance(1, 2) { status_msg(if sym == Sym::SOk { b"ok" } else { b"not_allowed" }) } else { gen_status(ctx) };
                 run.exec(&Op::S(b));
@@ -753,15 +775,12 @@ fn random_walk(ctx: &mut Ctx) {
                 let c = run.learn_our().unwrap_or(1);
                 run.exec(&Op::A(ack_msg(c, &format!("{}x", cfg.cookie))));
             }
-            Sym::D => {
-                run.exec(&Op::D);
-                pos = 0;
-            }
             s => exec_sym(&mut run, s),
         }
     }
     run.emit(ctx, "gen", false, true);
     ctx.count(&format!("walk_len_{}", run.toks.len().min(16)));
+    ctx.count(&format!("walk_end_{}", run.m.state().as_str()));
 }
 
 /* ---------- message codecs ---------- */
@@ -903,21 +922,50 @@ fn codecs(ctx: &mut Ctx) {
     }
     ctx.add("exhaustive", 1);
 
-    // StatusMessage::encode: the accepting side's message; the protocol (and this crate's own decoder) want the text
+    // StatusMessage::encode: the accepting side's message, the protocol's layout, read back by the crate's own decoder
     for s in [Status::Ok, Status::OkSimultaneous, Status::Nok, Status::NotAllowed, Status::Alive] {
         let b = StatusMessage::new(s).encode();
         ctx.tie("codec", &format!("c04enc_status {}", status_text(s)), &format!("ok {}", hex(&b)));
-        ctx.prop("kf-c04-status-encode", &format!("c04p_status {} {}", hex(status_text(s).as_bytes()), hex(&b)), "ok");
+        ctx.prop("codec-status-encode", &format!("c04p_status {} {}", hex(status_text(s).as_bytes()), hex(&b)), "ok");
         match StatusMessage::decode(&b[2..]) {
             Ok(m) if m.status == s => {}
-            _ => ctx.fail("kf-c04-status-encode", &format!("StatusMessage::decode rejects StatusMessage::encode({}) = {}", status_text(s), hex(&b))),
+            _ => ctx.fail("codec-status-encode", &format!("StatusMessage::decode rejects StatusMessage::encode({}) = {}", status_text(s), hex(&b))),
         }
+        if b.len() < 2 || u16::from_be_bytes([b[0], b[1]]) as usize != b.len() - 2 {
+            ctx.fail("codec-status-encode", &format!("StatusMessage::encode({}): length prefix does not cover the message: {}", status_text(s), hex(&b)));
+        }
+        decode_all(ctx, "codec", &b[2..]);
+        ctx.count("status_encode_round_trips");
     }
+}
+
+/* ---------- capability flags: the compiled constants against the regenerated table and against the protocol ---------- */
+
+/// flags.rs constants whose value is not the protocol's (known finding kf-c04-flag-bits)
+const MISNUMBERED: [&str; 4] = ["FRAGMENTS", "SPAWN", "NAME_ME", "ALIAS"];
+
+fn flag_tables(ctx: &mut Ctx) {
+    let mut names: Vec<String> = vec![];
+    for (name, f) in DistributionFlags::all().iter_names() {
+        names.push(name.to_string());
+        // the table gen_misc.py extracted from the source text = what the compiler made of it
+        ctx.tie("flags", &format!("c04flagconst {}", name), &f.bits().to_string());
+        // and the bit the protocol assigns to the capability of that name
+        let class = if MISNUMBERED.contains(&name) { "kf-c04-flag-bits" } else { "flags" };
+        ctx.prop(class, &format!("c04p_flagbit {} {}", name, f.bits()), "ok");
+        ctx.count("flag_constants");
+    }
+    ctx.tie("flags", "c04flagnames", &names.join(" "));
+    ctx.tie("flags", "c04flagset MANDATORY_OTP26", &DistributionFlags::MANDATORY_OTP26.bits().to_string());
+    ctx.tie("flags", "c04flagset DEFAULT", &DistributionFlags::default().bits().to_string());
+    ctx.tie("flags", "c04flagset DEFAULT", &DistributionFlags::default_otp26().bits().to_string());
+    ctx.tie("flags", "c04flagset DEFAULT_HIDDEN", &DistributionFlags::default_hidden().bits().to_string());
+    ctx.add("exhaustive", 1);
 }
 
 pub fn run(ctx: &mut Ctx) {
     corpus(ctx);
-    findings(ctx);
+    flag_tables(ctx);
     codecs(ctx);
     let n = ctx.n(2000, 15000);
     for _ in 0..n {
